@@ -21,7 +21,65 @@ FRAGS = {'layout.rs': kani.FRAGMENTS['layout.rs']}
 
 def run(res, args):
     kani.check_property(res, 'c12', FRAGS, SPECS)
+    mir_part(res)
     res.assumptions += [
         'explicit row/column reach next() only inside the range parse_next lets through (that range check is a separate obligation)',
         'Outside the claim: span/alignment copying, conflict diagnostics (Vec/PropertyCode values), LayoutFlow::parse',
     ]
+
+
+def mir_part(res):
+    """engine C: index plumbing of the layout closures, parse_next and the index range check on the MIR"""
+    import os
+    from .. import mir as M
+    from . import mir_obligations as O
+    text = M.dump_mir()
+    fns, consts = M.parse_functions(text), M.parse_consts(text)
+    obs = O.c12_layout(fns, consts)
+    cov = res.coverage
+    known = cov.setdefault('known_finding_obligations', [])
+    for ob in obs:
+        if ob['result'] == 'holds':
+            cov['obligations'] += 1
+            cov['discharged'] += 1
+        elif ob['result'] == 'inconclusive':
+            cov['obligations'] += 1
+            res.inconc(f"{ob['name']}: {ob['detail']}")
+        else:
+            # replay every refuted array through the CLI
+            arrays = set(m for m in O.ATTACHED if ('attributes__' + m) in ob['detail'])
+            reproduced_any, new_any = False, False
+            for a in sorted(arrays) or [None]:
+                if a is None:
+                    d = C.new_replay_dir('C12', 'mir-probes')
+                    rep, info = O.replay_layout_probes(d)
+                    ob.setdefault('replay', {})['probes'] = info
+                    if rep:
+                        reproduced_any = True
+                        fp = info['failed_probes'][0]
+                        new_any = res.violation({'site': ob['function'], 'probe': fp['probe']},
+                                                f"{ob['name']}: {ob['detail'][:400]}\nCLI probe '{fp['probe']}': expected {fp['expected']}, got {fp['actual']}", d) or new_any
+                    else:
+                        res.inconc(f"{ob['name']}: refuted on the MIR ({ob['detail'][:300]}) but no CLI probe exposes it")
+                    continue
+                d = C.new_replay_dir('C12', 'mir-' + a)
+                rep, info = O.replay_grid_attribute(a, d)
+                ob.setdefault('replay', {})[a] = info
+                if rep:
+                    reproduced_any = True
+                    new = res.violation({'site': 'process_grid_layout_children', 'array': a},
+                                        f"{a} is recorded at the wrong index: {info['attribute']}=\"{info['actual']}\", documented \"{info['expected']}\" for a child in {info['cell']}\n{ob['detail']}", d)
+                    new_any = new_any or new
+                elif rep is False:
+                    res.inconc(f"{ob['name']}: MIR counterexample for {a} did not reproduce through the CLI ({info})")
+                else:
+                    res.inconc(f"{ob['name']}: replay failed: {info}")
+            if reproduced_any and not new_any:
+                ob['decided_as'] = 'known finding'
+                known.append(ob)
+            else:
+                cov['obligations'] += 1
+        cov['samples'].append(ob)
+    cov['functions_encoded'] = sorted(set(cov.get('functions_encoded', [])) | set(o['function'] for o in obs))
+    cov['trusted_base'] += ['rustc nightly MIR pretty-printer', 'vlib/mir.py symbolic MIR interpreter', 'z3']
+    cov['checker_cmd'] += ' ; cargo +nightly rustc -- -Zunpretty=mir + vlib/mir.py + z3'
